@@ -110,6 +110,10 @@ def gen_cases(ctx):
         for t in w["tests"]:
             if rng.random() < 0.15:
                 t["body"]["writes"] = [[rng.random() < 0.5, 3 * rng.randint(1, 30)]]
+                # (a test that writes does not also close the stream it finds: writing to a stream one has closed is
+                # an error of the test's own - false alarm of this check with seed 3, see DESIGN section 11)
+                for p_ in cw.parts_of(t):
+                    p_.pop("close", None)
             if rng.random() < 0.1:
                 t["setUp"]["fd2"] = rng.choice(["warning: noise\n", "1 2\n", "a b c\n", "\n", "x" * 3000 + "\n",
                                                  "caf\xe9 latin-1 noise\n", "\xff\xfe\x00 binary\n", "3 0 0 trailing words\n"])
@@ -274,8 +278,14 @@ def death_cases(ctx, n):
         w = worlds.gen_world(rng, n_layers=rng.choice([2, 3]), tests_per_layer=(1, 3), kinds=["pass"], p_fault=0.0,
                              p_write=0.0)
         victims = [t for t in w["tests"] if w["layers"][t["layer"]]["kind"] != "unit"]
-        how = rng.choice(["exit0", "exit3", "sigkill", "segv"])
-        if victims and rng.random() < 0.55:
+        for _ in range(8):
+            if victims or i != 1:
+                break
+            w = worlds.gen_world(rng, n_layers=rng.choice([2, 3]), tests_per_layer=(1, 3), kinds=["pass"], p_fault=0.0,
+                                 p_write=0.0)
+            victims = [t for t in w["tests"] if w["layers"][t["layer"]]["kind"] != "unit"]
+        how = rng.choice(["exit0", "exit3", "sigkill", "segv", "linger"]) if i != 1 else "linger"
+        if victims and (rng.random() < 0.55 or how == "linger"):
             t = rng.choice(victims)
             rng.choice([t["setUp"], t["body"], t["tearDown"]])["exc"] = how
         else:
@@ -298,12 +308,42 @@ def death_cases(ctx, n):
     return cases
 
 
+def child_import_cases(ctx, n):
+    """a test module that can be imported in the main process but not in a layer subprocess, and that holds all the
+    tests of the layers it contributes to: the subprocess cannot find its layer - that is "a test module could not be
+    imported" and "a subprocess did not deliver its report" at once, the verdict is 'failed'.  (A module that holds only
+    some of a layer's tests is KNOWN-FINDING D45 and is not generated.)"""
+    rng = ctx.rng
+    cases = []
+    for i in range(n * 4):
+        if len(cases) >= n:
+            break
+        w = worlds.gen_world(rng, n_layers=rng.choice([2, 3]), tests_per_layer=(1, 3), kinds=["pass"], p_fault=0.0,
+                             p_write=0.0)
+        for m in sorted(w["modules"]):
+            lays = {t["layer"] for t in w["tests"] if t["module"] == m}
+            if lays and all(t["module"] == m for t in w["tests"] if t["layer"] in lays):
+                w["modules"][m]["importErrorInChild"] = True
+                cases.append(cw.Case(w, {"verbose": rng.choice([0, 1]), "processes": rng.choice([2, 3])}, "child-import"))
+                break
+    return cases
+
+
 def run_cases(ctx, cases):
     cw.run_real_cases(ctx, cases)
     mon = make_monitor(ctx)
     normal = []
     for c in cases:
-        if c.label == "child-dies":
+        if c.label == "child-import":
+            ctx.count(c.replay_obj(), nontrivial=True, sample=cw.describe(c))
+            ctx.bump("child-import")
+            if not cw.sane_run(ctx, c, PROP):
+                continue
+            if c.obs.exit != 1:
+                ctx.violation("exit status %r although a test module could not be imported in a layer subprocess (whose "
+                              "layer has no other tests) (opts %r)" % (c.obs.exit, c.opts), c.replay_obj(),
+                              signature="C02:child-import")
+        elif c.label == "child-dies":
             ctx.count(c.replay_obj(), nontrivial=True, sample=cw.describe(c))
             ctx.bump("child-dies")
             if not cw.sane_run(ctx, c, PROP):
@@ -326,16 +366,18 @@ def strip_deaths(world):
     w = copy.deepcopy(world)
     for t in w["tests"]:
         for part in [t["setUp"], t["body"], t["tearDown"]]:
-            if part.get("exc") in ("exit0", "exit3", "sigkill", "segv"):
+            if part.get("exc") in ("exit0", "exit3", "sigkill", "segv", "linger"):
                 part["exc"] = None
     return w
 
 
 def run(ctx):
-    run_cases(ctx, cw.corpus_cases(PROP) + gen_cases(ctx))
+    run_cases(ctx, cw.corpus_cases(PROP) + gen_cases(ctx) + child_import_cases(ctx, 3 if ctx.quick() else 40))
     # a child that cannot be started is "something went wrong" too
     from harness import corr_channel
     corr_channel.spawn_failure_cases(ctx)
+    # ... and so is a child whose complete report arrives while its stderr stays open for a while
+    corr_channel.slow_eof_cases(ctx)
 
 
 def replay(ctx, obj):
@@ -399,4 +441,36 @@ def probe_d44(ctx):
         "not succeed, its tests did not run, the verdict is 'passed'" % obs.exit)
 
 
-KNOWN_PROBES = {"D34": probe_d34, "D44": probe_d44}
+def probe_d45(ctx):
+    """a module that fails to import in a layer subprocess only, and holds SOME of the tests of its layer"""
+    import os
+    import random
+    import shutil
+    rng = random.Random(45)
+    for _ in range(50):
+        w = worlds.gen_world(rng, n_layers=2, tests_per_layer=(2, 3), kinds=["pass"], p_fault=0.0, p_write=0.0)
+        pick = None
+        for m in sorted(w["modules"]):
+            lays = {t["layer"] for t in w["tests"] if t["module"] == m}
+            others = [t for t in w["tests"] if t["layer"] in lays and t["module"] != m]
+            # every layer the module contributes to has tests elsewhere too: each subprocess finds its layer
+            if lays and all(any(t["layer"] == l and t["module"] != m for t in w["tests"]) for l in lays) and others:
+                pick = m
+                break
+        if pick:
+            break
+    else:
+        return False, "no witness world generated"
+    w["modules"][pick]["importErrorInChild"] = True
+    d = os.path.join(ctx.tmp, "probe_d45")
+    worlds.materialize(w, d)
+    obs = worlds.run_real(w, {"verbose": 1, "processes": 2}, d)
+    shutil.rmtree(d, ignore_errors=True)
+    broken = "cannot be imported in a layer subprocess" in obs.stdout + obs.stderr
+    return bool(broken and obs.exit == 0), (
+        "-j 2: a test module that cannot be imported in the layer subprocesses (it can in the main process) while its "
+        "layers have tests in other modules too: the subprocesses print the import problem, the parent never learns of "
+        "it - exit status %r" % obs.exit)
+
+
+KNOWN_PROBES = {"D34": probe_d34, "D44": probe_d44, "D45": probe_d45}
